@@ -112,6 +112,33 @@ pub struct StunDecoded {
     /// Refresh responses). Honored per RFC 5766 §2.2 — the server may grant a
     /// lifetime shorter than the one requested by the client.
     pub lifetime: Option<u32>,
+    /// Value of the USERNAME attribute (0x0006), if present.
+    pub username: Option<String>,
+    /// MESSAGE-INTEGRITY (0x0008), if present: offset of the attribute header
+    /// within the message and the 20-byte HMAC-SHA1 value it carries.
+    pub message_integrity: Option<(usize, [u8; 20])>,
+}
+
+impl StunDecoded {
+    /// Verify MESSAGE-INTEGRITY (RFC 5389 §15.4) over `raw`, the datagram this
+    /// message was decoded from: HMAC-SHA1 under `key` of everything before
+    /// the attribute, with the header length adjusted to end at the attribute.
+    /// Returns false when the attribute is absent.
+    pub fn verify_integrity(&self, raw: &[u8], key: &[u8]) -> bool {
+        let Some((offset, expected)) = self.message_integrity else {
+            return false;
+        };
+        if offset < 20 || offset > raw.len() {
+            return false;
+        }
+        let mut signed = raw[..offset].to_vec();
+        write_length_field(&mut signed, offset - 20 + 24);
+        let mut mac =
+            <HmacSha1 as hmac::digest::KeyInit>::new_from_slice(key).expect("HMAC key init");
+        mac.update(&signed);
+        // Constant-time comparison.
+        mac.verify_slice(&expected).is_ok()
+    }
 }
 
 fn encode_stun_message(
@@ -328,6 +355,8 @@ fn decode_stun_message(bytes: &[u8]) -> Result<StunDecoded> {
     let mut data = None;
     let mut use_candidate = false;
     let mut lifetime = None;
+    let mut username = None;
+    let mut message_integrity = None;
     while offset + 4 <= bytes.len() {
         let typ = u16::from_be_bytes([bytes[offset], bytes[offset + 1]]);
         let len = u16::from_be_bytes([bytes[offset + 2], bytes[offset + 3]]) as usize;
@@ -380,6 +409,16 @@ fn decode_stun_message(bytes: &[u8]) -> Result<StunDecoded> {
             0x0025 => {
                 use_candidate = true;
             }
+            0x0006 => {
+                if let Ok(text) = std::str::from_utf8(value) {
+                    username = Some(text.to_string());
+                }
+            }
+            0x0008 => {
+                if let Ok(hmac) = <[u8; 20]>::try_from(value) {
+                    message_integrity = Some((offset - 4, hmac));
+                }
+            }
             _ => {}
         }
         offset += len;
@@ -398,6 +437,8 @@ fn decode_stun_message(bytes: &[u8]) -> Result<StunDecoded> {
         data,
         use_candidate,
         lifetime,
+        username,
+        message_integrity,
     })
 }
 
